@@ -84,10 +84,17 @@ func TestMain(m *testing.M) {
 	}()
 }
 
-// populate creates files f, x.y and directories r, "r x" recursively.
+// populate creates files f, x.y and directories r, "r x" recursively; every directory and every file has a twin FILE
+// next to it whose name is the same plus the language's file extension (r.ecal beside r, f.ecal beside f): a locator
+// which completes names must not reach the twin of the root itself, which lies outside.
 func populate(dir string, depth int) {
 	os.MkdirAll(dir, 0755)
-	for _, f := range []string{"f", "x.y"} {
+	if dir != base {
+		if err := os.WriteFile(dir+".ecal", []byte(prefix+dir+".ecal\"\n"), 0644); err != nil {
+			panic(err)
+		}
+	}
+	for _, f := range []string{"f", "x.y", "f.ecal", "x.y.ecal"} {
 		p := filepath.Join(dir, f)
 		if err := os.WriteFile(p, []byte(prefix+p+"\"\n"), 0644); err != nil {
 			panic(err)
